@@ -238,6 +238,27 @@ theorem regenerate_spec (hv : h < s.heap.length) (hfresh : ∀ x, (ID.gen s.next
       regenS2_ref_id cfg s h hv]
     simp
 
+/-- the events of a successful `RegenerateID`, exactly: the flushes of the first `Set`'s compaction
+(a run of `compact` from the actual intermediate state, see `setC_flushed`), the write-through save
+under the new id, the flushes of the second `Set`'s compaction, the write-through save of the
+reference record under the old id, the cookie. A failed save can therefore only occur inside the two
+compaction runs. -/
+theorem regenerate_evs_ok (hv : h < s.heap.length) (hok : (regenerate cfg s h).2.1 = true) :
+    (regenerate cfg s h).2.2 =
+      (setC cfg (regenS0 s h) h).2 ++ [.save (ID.gen s.nextId) (enc cfg.codec (rotObj s h))] ++
+        (setC cfg (regenS2 cfg s h) s.heap.length).2 ++ [.save (s.obj h).id (enc cfg.codec (rotRef s h))] ++
+        [.setCookie (ID.gen s.nextId)] := by
+  obtain ⟨hA, hB⟩ := (regenerate_ok_iff cfg s h).1 hok
+  obtain ⟨_, hev⟩ := regenerate_state_ok cfg s h hok
+  rw [hev]
+  have e1 := cacheSet_evs cfg (regenS0 s h) h
+  have e2 := cacheSet_evs cfg (regenS2 cfg s h) s.heap.length
+  rw [← regenB_eq] at e2
+  rw [show cacheSet cfg (regenS0 s h) h = regenA cfg s h from rfl] at e1
+  rw [e1, e2, hA, hB, regenA_obj_self cfg s h hv, regenB_obj_self cfg s h hv, regenS0_id s h hv,
+    regenS2_ref_id cfg s h hv]
+  simp
+
 /-- the cookie event of `RegenerateID` is its last event and its only cookie event -/
 theorem regenerate_cookie_last (hok : (regenerate cfg s h).2.1 = true) :
     (regenerate cfg s h).2.2.getLast? = some (.setCookie (ID.gen s.nextId)) ∧
